@@ -10,7 +10,8 @@
 //	i:V itTAG:V e:V u:V n:V     AddASN1Int64 / …WithTag / Enum / Uint64 / BigInt <-> ReadASN1Integer / ReadASN1Int64WithTag / ReadASN1Enum
 //	t f                         AddASN1Boolean      <-> ReadASN1Boolean
 //	o:1.2.3  s:HEX  bs:HEX  z   OID / OCTET STRING / BIT STRING / NULL
-//	g:SECS                      GeneralizedTime (not modelled in Lean: such lines are T3-only)
+//	g:SECS  g:SECS@OFF          AddASN1GeneralizedTime(time.Unix(SECS,0) in UTC / in FixedZone(OFF)) <-> ReadASN1GeneralizedTime
+//	                            (value read back: SECS, or SECS@OFF for a non-zero zone offset; model lean/ZV/Model/Time.lean)
 //	oaTAG[ … ] / naTAG          element present / absent   <-> ReadOptionalASN1
 //	oiTAG:V:D / niTAG:D         [tag]{INTEGER V} / nothing  <-> ReadOptionalASN1Integer(default D)
 //	osTAG:HEX / nsTAG           [tag]{OCTET STRING} / nothing <-> ReadOptionalASN1OctetString
@@ -182,8 +183,8 @@ func write(b *cryptobyte.Builder, prog []op, exp *[]string) {
 			b.AddASN1NULL()
 			*exp = append(*exp, "z")
 		case "g":
-			b.AddASN1GeneralizedTime(time.Unix(atoi64(o.a), 0).UTC())
-			*exp = append(*exp, o.a)
+			b.AddASN1GeneralizedTime(gtimeOf(o.a))
+			*exp = append(*exp, gtimeStr(gtimeOf(o.a)))
 		case "oi":
 			b.AddASN1(cbasn1.Tag(o.tag), func(c *cryptobyte.Builder) { c.AddASN1Int64(atoi64(o.a)) })
 			*exp = append(*exp, o.a)
@@ -517,7 +518,7 @@ func (r *rd) read(s *cryptobyte.String, prog []op) bool {
 			if !s.ReadASN1GeneralizedTime(&v) {
 				return false
 			}
-			r.vals = append(r.vals, strconv.FormatInt(v.Unix(), 10))
+			r.vals = append(r.vals, gtimeStr(v))
 		case "oi", "ni":
 			d := o.b
 			if o.kind == "ni" {
@@ -590,6 +591,46 @@ func (r *rd) read(s *cryptobyte.String, prog []op) bool {
 	return true
 }
 
+// gtimeOf: `SECS` (UTC) or `SECS@OFF` (zone OFF seconds east of UTC).
+func gtimeOf(a string) time.Time {
+	if i := strings.IndexByte(a, '@'); i >= 0 {
+		off, _ := strconv.Atoi(a[i+1:])
+		t := time.Unix(atoi64(a[:i]), 0)
+		if off == 0 {
+			return t.UTC()
+		}
+		return t.In(time.FixedZone("", off))
+	}
+	return time.Unix(atoi64(a), 0).UTC()
+}
+
+func gtimeStr(t time.Time) string {
+	if _, off := t.Zone(); off != 0 {
+		return fmt.Sprintf("%d@%d", t.Unix(), off)
+	}
+	return strconv.FormatInt(t.Unix(), 10)
+}
+
+// subMinuteZone: the program writes a GeneralizedTime whose zone offset is not a whole number of minutes. The text form
+// has no seconds in the zone: AddASN1GeneralizedTime (Time.Format) drops them, keeping the local clock reading, so the
+// reader either rejects the writer's output (0 < |offset| < 60: "+0000" is not what "Z" re-serialises to) or returns
+// an instant shifted by the dropped seconds. Outside the domain of the round-trip theorem (read_write_all: gtimeOK);
+// reported as a finding, compared with the model (T2), not counted as a T3 violation.
+func subMinuteZone(p []op) bool {
+	for _, o := range p {
+		if o.kind == "g" {
+			// (a zone of 25 hours or more is written with an hour field that the reader's time.Parse refuses: also outside)
+			if _, off := gtimeOf(o.a).Zone(); off%60 != 0 || off <= -90000 || off >= 90000 {
+				return true
+			}
+		}
+		if subMinuteZone(o.body) {
+			return true
+		}
+	}
+	return false
+}
+
 // bigArc: the program writes an OID with a sub-identifier >= 2^31 (an arc, or 80+arc2 under arc1 = 2).
 func bigArc(p []op) bool {
 	for _, o := range p {
@@ -648,7 +689,7 @@ func exec(line string) zv.Out {
 	for k := range km {
 		tags = append(tags, k)
 	}
-	modelled := !km["op=g"]
+	modelled := true // every op, GeneralizedTime included, is modelled
 
 	var b cryptobyte.Builder
 	var exp []string
@@ -714,6 +755,13 @@ func exec(line string) zv.Out {
 		}
 	}
 	trivial := false
+	if km["op=g"] && subMinuteZone(prog) {
+		if viol != "" {
+			tags = append(tags, "gtime:sub-minute-zone-not-read-back(outside-domain)")
+		}
+		viol, trivial = "", true
+		tags = append(tags, "gtime:zone-with-seconds-or->=25h")
+	}
 	if r.ambiguous {
 		// an absent optional element followed by data that happens to carry the same tag: the reader rightly treats it as present
 		viol, trivial = "", true
@@ -1006,9 +1054,48 @@ func genAll(zg *zv.Gen) {
 		}
 		emit(zg, toks, r.Bytes(r.Intn(5)*r.Intn(2)))
 	}
+	// GeneralizedTime (appended last; a generator of its own, so the lines above do not depend on these): the years
+	// -1 / 0 / 9999 / 10000 and the seconds around them (the Builder must refuse years outside 0..9999, in the zone of
+	// the value), leap days, zones of whole minutes up to 24h59 and beyond (25h: the reader refuses its hour field), zones
+	// with seconds (outside the round-trip domain, see subMinuteZone), alone / followed by data / nested / twice
+	tr := zv.NewRng(zg.Seed*0x9e3779b97f4a7c15 + 0x7c21)
+	offs := []int{0, 0, 3600, -3600, 19800, -43200, 60, -60, 86340, -86340, 86400, -86400, 89940, -89940, 90000, -90000, 30, -30, 59, 61, -3661, 1}
+	gtok := func(u int64, off int) string {
+		if off == 0 && tr.Bool() {
+			return fmt.Sprintf("g:%d", u)
+		}
+		return fmt.Sprintf("g:%d@%d", u, off)
+	}
+	const year0, year10000 = -62167219200, 253402300800
+	for _, edge := range []int64{year0, year10000, -62135596800, 0, 951782400 /* 2000-02-29 */, 4107542400 /* 2100-03-01 */} {
+		for _, ds := range []int64{-90001, -86401, -3601, -3600, -61, -60, -1, 0, 1, 59, 60, 3599, 3600, 86399, 86400, 90000} {
+			for _, off := range offs {
+				emit(zg, []string{gtok(edge+ds, off)}, nil)
+			}
+		}
+	}
+	for i, n := 0, zg.N(3000, 100000); i < n; i++ {
+		u := year0 + int64(tr.U64()%uint64(year10000-year0))
+		off := offs[tr.Intn(len(offs))]
+		if tr.Chance(10) {
+			off = tr.Intn(180001) - 90000
+		}
+		switch tr.Intn(5) {
+		case 0:
+			emit(zg, []string{gtok(u, off)}, tr.Bytes(1+tr.Intn(3)))
+		case 1:
+			emit(zg, []string{"a48[", gtok(u, off), "i:5", "]", "z"}, nil)
+		case 2:
+			emit(zg, []string{gtok(u, off), gtok(year0+int64(tr.U64()%uint64(year10000-year0)), offs[tr.Intn(len(offs))])}, []byte{0x18})
+		case 3:
+			emit(zg, []string{"p2[", "u8:24", gtok(u, off), "]"}, nil)
+		default:
+			emit(zg, []string{gtok(u, off)}, nil)
+		}
+	}
 }
 
 func init() {
 	zv.Register(&zv.Prop{ID: "C21", Topic: "c21", Gen: genAll, Exec: exec,
-		Rule: "write/read programs over the cryptobyte Builder/String API: every sequence of <= 2 (quick) / 3 (thorough) ops over a 24-op alphabet with and without trailing data; every kind of block (8/16/24/32-bit length prefixes - the 32-bit one read back with ReadUint32+ReadBytes -, ASN.1 elements) at the length boundaries 0/1/0x7f/0x80/0xff/0x100/0xffff/0x10000 followed by data; random programs of <= 12 ops, nesting <= 4, with boundary integers, OID arcs up to 2^31-1, big integers up to 40 bytes, optional elements present/absent followed by other data, tails of 0..4 bytes; a case is one program+tail; every run of <= 3 (quick) / 4 (thorough) consecutive optional fields (present/absent, 14-op alphabet) alone, followed by data and inside a SEQUENCE; every program is read back four times: with every out-parameter of every reader pre-set to a non-default value (flags true, integers 0xa5.., slices/Strings/big.Int/OID/BitString/time non-empty), zero-initialised, with one shared variable per type reused for the whole program (optional INTEGERs into *big.Int), and with outPresent == nil; T3 = in all four the mirrored readers succeed, return the written values (absent optional: present=false / the default / a nil slice), leave exactly the tail and do not modify the input (programs whose build fails, and absent optionals followed by an equal tag byte, are counted trivial)"})
+		Rule: "write/read programs over the cryptobyte Builder/String API: every sequence of <= 2 (quick) / 3 (thorough) ops over a 24-op alphabet with and without trailing data; every kind of block (8/16/24/32-bit length prefixes - the 32-bit one read back with ReadUint32+ReadBytes -, ASN.1 elements) at the length boundaries 0/1/0x7f/0x80/0xff/0x100/0xffff/0x10000 followed by data; random programs of <= 12 ops, nesting <= 4, with boundary integers, OID arcs up to 2^31-1, big integers up to 40 bytes, optional elements present/absent followed by other data, tails of 0..4 bytes; a case is one program+tail; every run of <= 3 (quick) / 4 (thorough) consecutive optional fields (present/absent, 14-op alphabet) alone, followed by data and inside a SEQUENCE; every program is read back four times: with every out-parameter of every reader pre-set to a non-default value (flags true, integers 0xa5.., slices/Strings/big.Int/OID/BitString/time non-empty), zero-initialised, with one shared variable per type reused for the whole program (optional INTEGERs into *big.Int), and with outPresent == nil; T3 = in all four the mirrored readers succeed, return the written values (absent optional: present=false / the default / a nil slice), leave exactly the tail and do not modify the input (programs whose build fails, and absent optionals followed by an equal tag byte, are counted trivial); GeneralizedTime programs (model-compared): years -1/0/9999/10000 and the seconds around them, leap days, zone offsets of whole minutes up to 24h59 and 25h, alone / followed by data / nested / twice; zone offsets with seconds or of 25 hours and more are outside the round-trip domain (the text form has no zone seconds: the reader rejects or returns a shifted instant; time.Parse refuses a zone hour above 24) - such programs are compared with the model only and tagged gtime:zone-with-seconds-or->=25h"})
 }
